@@ -270,54 +270,56 @@ func runC07(c *eng.Ctx) {
 		// (3) inside a quantifier body, relative to a value alias (paths below "a")
 		if len(path) >= 2 && path[0] == "a" {
 			rest := path[1:]
-			var bodies []string
-			cur := []string{"x"}
-			for _, p := range rest {
-				var nxt []string
-				for _, cc := range cur {
-					for _, s := range restSpellings(p, false) {
-						nxt = append(nxt, cc+s)
-					}
-				}
-				cur = nxt
-			}
-			bodies = append(bodies, cur...)
-			okJP := true
-			for _, p := range rest {
-				okJP = okJP && jpPartOK(p)
-			}
-			if okJP {
-				bodies = append(bodies, RenderJSONPointer(append([]string{"x"}, rest...)))
-			}
-			if len(bodies) >= 2 {
-				var first []int
-				var firstSrc string
-				// the collection is the map "a": x ranges over its values; the leaf under key path[1]... compare only
-				lit := RenderLit(leafID(append([]string{"a", "a"}, rest...)))
-				for _, b := range bodies {
-					src := "any a as _, x { " + b + " == " + lit + " }"
-					got := evalSrc(src)
-					c.R.States++
-					c.R.Traces++
-					if got == nil {
-						continue
-					}
-					if first == nil {
-						first, firstSrc = got, src
-						continue
-					}
-					for di := range ds {
-						if got[di] != first[di] && got[di] >= 0 && first[di] >= 0 {
-							c.Violate(eng.Violation{Kind: "spelling-changes-outcome-in-body", Key: "A=" + firstSrc + " | B=" + src + fmt.Sprintf(" | doc#%d", di), Coords: map[string]int{"p": pi},
-								Expected: v3name[first[di]], Observed: v3name[got[di]]})
+			for _, al := range []string{"x", "b"} {
+				var bodies []string
+				cur := []string{al}
+				for _, p := range rest {
+					var nxt []string
+					for _, cc := range cur {
+						for _, s := range restSpellings(p, false) {
+							nxt = append(nxt, cc+s)
 						}
 					}
+					cur = nxt
 				}
-				if first != nil {
-					c.R.Nontrivial++
-					for di := range ds {
-						if first[di] >= 0 {
-							c.Count("body:" + v3name[first[di]])
+				bodies = append(bodies, cur...)
+				okJP := true
+				for _, p := range rest {
+					okJP = okJP && jpPartOK(p)
+				}
+				if okJP {
+					bodies = append(bodies, RenderJSONPointer(append([]string{al}, rest...)))
+				}
+				if len(bodies) >= 2 {
+					var first []int
+					var firstSrc string
+					// the collection is the map "a": x ranges over its values; the leaf under key path[1]... compare only
+					lit := RenderLit(leafID(append([]string{"a", "a"}, rest...)))
+					for _, b := range bodies {
+						src := "any a as _, " + al + " { " + b + " == " + lit + " }"
+						got := evalSrc(src)
+						c.R.States++
+						c.R.Traces++
+						if got == nil {
+							continue
+						}
+						if first == nil {
+							first, firstSrc = got, src
+							continue
+						}
+						for di := range ds {
+							if got[di] != first[di] && got[di] >= 0 && first[di] >= 0 {
+								c.Violate(eng.Violation{Kind: "spelling-changes-outcome-in-body", Key: "A=" + firstSrc + " | B=" + src + fmt.Sprintf(" | doc#%d", di), Coords: map[string]int{"p": pi},
+									Expected: v3name[first[di]], Observed: v3name[got[di]]})
+							}
+						}
+					}
+					if first != nil {
+						c.R.Nontrivial++
+						for di := range ds {
+							if first[di] >= 0 {
+								c.Count("body:" + v3name[first[di]])
+							}
 						}
 					}
 				}
